@@ -22,7 +22,9 @@ def gen_pairs(rng, n, same_frac=0.45, decimals=False):
         elif r < 0.8:
             b, db, rel = a, rng.choice(SMALL), "near"
         else:
-            b, rel = rand_tp(rng, md, decimals=decimals), "far"
+            # b + (a - b) walks the calendar day by day: keep unrelated partners within a few thousand years (cost, not correctness)
+            ya = int(a.split()[1])
+            b, rel = rand_tp(rng, md, decimals=decimals, year=ya + rng.choice([0, 1, -1, 4, -100, 400, rng.randint(-3000, 3000)])), "far"
             db = ZERO if rng.random() < 0.5 else rand_exact_dur(rng, decimals=False)[0]
         za, zb = rand_zone(rng), rand_zone(rng)
         ka, kb = rng.choice("COW-"), rng.choice("COW-")
